@@ -170,6 +170,10 @@ func c13Run(t *testing.T, o *vOut, ca *vCA, sc c13Script) {
 		od := &OnDemandConfig{DecisionFunc: rec.Decision(func(string) bool { return permit })}
 		cache, cfg := vNewCfg(st, []Issuer{iss}, func(cf *Config, co *CacheOptions) {
 			cf.OnDemand = od
+			if sc.kind == "loadStatic" {
+				cf.OnDemand = nil
+				co.Capacity = 10
+			}
 			co.RenewCheckInterval = 100000 * time.Hour
 			co.OCSPCheckInterval = 100000 * time.Hour
 		})
@@ -183,6 +187,24 @@ func c13Run(t *testing.T, o *vOut, ca *vCA, sc c13Script) {
 		case "load":
 			cur = hsMakeBundle(ca, c13Name, "valid", false)
 			hsStoreBundle(st, iss.IssuerKey(), c13Name, cur)
+		case "loadStatic":
+			// a static configuration whose bounded cache is almost full: a certificate that is in storage
+			// but not (any more) in the cache is loaded during the handshake — once, for all of them
+			cur = hsMakeBundle(ca, c13Name, "valid", false)
+			hsStoreBundle(st, iss.IssuerKey(), c13Name, cur)
+			ctl.mu.Lock()
+			ctl.armed = false // (the fillers' loads are preparation, not the worker's)
+			ctl.mu.Unlock()
+			for i := 0; i < 9; i++ {
+				other := fmt.Sprintf("filler%d.c13.example", i)
+				hsStoreBundle(st, iss.IssuerKey(), other, hsMakeBundle(ca, other, "valid", false))
+				if _, err := cfg.CacheManagedCertificate(ctx, other); err != nil {
+					t.Fatal(err)
+				}
+			}
+			ctl.mu.Lock()
+			ctl.armed = true
+			ctl.mu.Unlock()
 		case "renewExpired", "d9", "obtainMissing":
 			cur = hsMakeBundle(ca, c13Name, "expired", false)
 			hsStoreBundle(st, iss.IssuerKey(), c13Name, cur)
@@ -231,9 +253,18 @@ func c13Run(t *testing.T, o *vOut, ca *vCA, sc c13Script) {
 				mu.Unlock()
 				_ = cancel
 			}
+			// crypto/tls cancels the handshake's context as soon as the handshake is over: whatever the
+			// library starts in the background must not depend on it
+			endOfHandshake := func() {}
+			if !cancellable {
+				var cancelHS context.CancelFunc
+				cctx, cancelHS = context.WithCancel(cctx)
+				endOfHandshake = cancelHS
+			}
 			wg.Add(1)
 			go func() {
 				defer wg.Done()
+				defer endOfHandshake()
 				c.g = hsGoID()
 				cert, err := cfg.GetCertificateWithContext(cctx, hsHello(c13Name))
 				mu.Lock()
@@ -282,6 +313,10 @@ func c13Run(t *testing.T, o *vOut, ca *vCA, sc c13Script) {
 			// to be held): not a judgement about the code; counted and skipped
 			o.Stat("scripts_not_staged", 1)
 			o.Note("not_staged:"+sc.String(), "no call reached the yield point "+sc.hold)
+			// every script of the list reaches its yield point on the code as it is (issuer up, policy
+			// consulted, bundle loadable): if nobody gets there, the work that had to be done — by
+			// exactly one of the handshakes, or by the background renewal it starts — was not begun
+			o.Mon("C13 nobody-performs-the-work", map[string]any{"script": sc.String(), "yield_point": sc.hold})
 			close(ctl.gate)
 			synctest.Wait()
 			time.Sleep(30 * time.Minute)
@@ -352,6 +387,20 @@ func c13Run(t *testing.T, o *vOut, ca *vCA, sc c13Script) {
 		time.Sleep(30 * time.Minute)
 		synctest.Wait()
 		wg.Wait()
+		// a background renewal of an unexpired certificate whose issuer answers runs to completion,
+		// however short-lived the handshakes that triggered it were: at the end the new certificate
+		// is the one in the cache
+		if sc.kind == "renewWindow" && sc.outcome == "ok" {
+			found := false
+			for _, cc := range cache.getAllMatchingCerts(c13Name) {
+				if cc.Leaf != nil && !cc.Leaf.Equal(cur.leaf) {
+					found = true
+				}
+			}
+			if !found {
+				o.Mon("C13 background-renewal-never-completed", map[string]any{"script": sc.String()})
+			}
+		}
 		// ---- observables
 		threads := rec.Threads(c13Name)
 		issues, loads, gates := 0, 0, 0
@@ -498,6 +547,7 @@ func c13Scripts(thorough bool) []c13Script {
 		kos = append(kos, ko{k, "deny", "gate"})
 	}
 	kos = append(kos, ko{"load", "ok", "load"})
+	kos = append(kos, ko{"loadStatic", "ok", "load"})
 	sizes := [][3]int{{0, 0, 0}, {1, 0, 0}, {0, 1, 0}, {0, 0, 1}, {1, 1, 1}, {3, 2, 2}, {7, 0, 0}, {0, 7, 3}, {15, 8, 4}, {31, 32, 0}, {63, 0, 0}}
 	if thorough {
 		sizes = append(sizes, [3]int{2, 2, 2}, [3]int{5, 9, 1}, [3]int{20, 20, 20}, [3]int{0, 63, 0}, [3]int{30, 30, 3})
